@@ -303,7 +303,8 @@ func runC07(c *Ctx) {
 		c.Check(len(got) == 1 && got[0] == want, "C07-R2", "class:"+n+"="+want, consts[n].Pos(), "handled in exactly its class",
 			"comment type "+n+" is handled as ["+strings.Join(got, ",")+"], expected exactly ["+want+"]")
 		if want == "rule" {
-			c.Check(passLevel[n], "C07-R2", "class:"+n+" ignored by the file reader", consts[n].Pos(), "file reader passes", "rule-level comment "+n+" is also consumed by the file reader")
+			// "passes" = has an arm that does nothing, or no arm at all in the file reader's switch
+			c.Check(passLevel[n] || (!fileLevel[n] && !ignoreLevel[n]), "C07-R2", "class:"+n+" ignored by the file reader", consts[n].Pos(), "file reader passes", "rule-level comment "+n+" is also consumed by the file reader")
 		}
 	}
 	// keyword table
